@@ -131,6 +131,12 @@ def make_actions(cfg):
                 o2 = o[2] if o[0] == "dl" else o
                 return o2[1] if o2[0] in ("read", "chunk") else None
             ops = [o for o in ops if reads(o) is None or reads(o) not in busy_p]
+            if cfg.get("focus") == "proc":
+                # small alphabet around subprocess waits so that depth 4-6 is affordable
+                def keep(o):
+                    o2 = o[2] if o[0] == "dl" else o
+                    return o2[0] == "pwait" or o == ("sleep", 3) or o[0] == "take" or o2[0] == "write-bad"
+                ops = [o for o in ops if keep(o)]
             acts += [("start", w, o) for o in ops]
         for w in m.blocked():
             acts.append(("cancel", w, "cancel%d" % d))
@@ -301,14 +307,15 @@ def main():
     if chk.quick:
         cfgs = [(dict(caps=(0,), nw=2), 5), (dict(caps=(1,), nw=2), 5), (dict(caps=(0, 1), nw=2), 4),
                 (dict(caps=(0,), nw=3), 4), (dict(caps=(), nw=2, npipes=1), 4), (dict(caps=(0,), nw=2, npipes=1), 3),
-                (dict(caps=(0,), nw=2, nprocs=1, free_tick=True), 4)]
+                (dict(caps=(0,), nw=2, nprocs=1, npipes=1, free_tick=True, focus="proc"), 4)]
     else:
         cfgs = [(dict(caps=(0,), nw=2), 8), (dict(caps=(1,), nw=2), 8), (dict(caps=(2,), nw=2), 7),
                 (dict(caps=(0, 1), nw=2), 6), (dict(caps=(0, 0), nw=2), 6), (dict(caps=(1, 1), nw=2), 6),
                 (dict(caps=(0,), nw=3), 7), (dict(caps=(1,), nw=3), 7), (dict(caps=(0, 1), nw=3), 5),
                 (dict(caps=(), nw=2, npipes=1), 8), (dict(caps=(0,), nw=2, npipes=1), 6),
-                (dict(caps=(), nw=3, npipes=2), 5), (dict(caps=(0,), nw=2, nprocs=1, free_tick=True), 6),
+                (dict(caps=(), nw=3, npipes=2), 5), (dict(caps=(0,), nw=2, nprocs=1, npipes=1, free_tick=True, focus="proc"), 6),
                 (dict(caps=(), nw=2, nprocs=2, npipes=1, free_tick=True), 4)]
+    cfgs.sort(key=lambda cd: 0 if cd[0].get("focus") else 1)
     done = []
     for i, (cfg, depth) in enumerate(cfgs):
         if chk.out_of_time(0.9):
